@@ -139,7 +139,7 @@ impl Monitor for C16 {
         ]
     }
     fn rule(&self) -> &'static str {
-        "states reached by seeded random admin/allowance/permission/spend histories on both proxies (with block advances onto expiry boundaries); in each of ~40 states per history ~25 (sender, message) probes: CanExecute is queried, then Execute{[msg]} by the same sender runs on a copy of the same storage, and the two answers must agree. distinct = (proxy kind, sender class, message kind, query answer, execute outcome, allowance missing/expired/empty/live, permission flags)"
+        "states reached by seeded random admin/allowance/permission/spend histories on both proxies (with block advances onto expiry boundaries); in each of ~40 states per history ~25 (sender, message) probes (every CosmosMsg kind; a tenth are calls addressed to the proxy itself: nested execute, freeze, update_admins, garbage; bank sends to the proxy itself): CanExecute is queried, then Execute{[msg]} by the same sender runs on a copy of the same storage, and the two answers must agree. distinct = (proxy kind, sender class, message kind, query answer, execute outcome, allowance missing/expired/empty/live, permission flags)"
     }
     fn assumptions(&self) -> Vec<&'static str> {
         vec!["senders are valid addresses (the property's domain)", "Execute on a storage copy equals Execute 'before any other state change'"]
